@@ -3,7 +3,7 @@
 From PV Require Import Base.Prelude Base.Slice Model.EncodeBase Model.Encode Model.EncodeCompose Model.EncodeDHCP
      Spec.EncodeRef Spec.EncodeRefDHCP
      Proofs.Encode Proofs.EncodeIP4 Proofs.EncodeEther Proofs.EncodeMisc Proofs.EncodeCompose Proofs.EncodeDHCP
-     Proofs.EncodeDNS.
+     Proofs.EncodeDNS Proofs.EncodeIP6Frame.
 Open Scope N_scope.
 
 (* EncodeEther: for every buffer of capacity >= 14 (any length, any contents), every
@@ -398,3 +398,104 @@ Example C03_dnsquery_rt_ex :
   exists p, encode_dns_query 4660 256 (wire_of_labels ls) 1 = Ok p /\ len p = 33%nat.
 Proof. exact dnsquery_rt_ex. Qed.
 Print Assumptions C03_dnsquery_rt_ex.
+
+(* Bytes beyond the inner length fields.  A small IPv4/UDP packet is built in its own buffer and
+   finished with Ether.AppendPayload, which pads the frame to the 60-byte minimum: the Ethernet
+   payload is the packet followed by zeros.  Every inner layer is reached through the outer
+   view's Payload() getter (Ether.Payload -> IP4.Payload = p[IHL:TotalLen] -> UDP.Payload) and
+   yields exactly the supplied values; len of the UDP view = UDP length = 8 + |data|; the
+   reference decoders stop at TotalLen as well; Session.Parse classifies the padded frame. *)
+Theorem C03_padded_frame_rt : forall b smac dmac ttl sip dip sp dp data,
+
+  (60 <= cap b)%nat -> (42 + length data <= cap b)%nat -> length smac = 6%nat -> length dmac = 6%nat ->
+  is4 sip = true -> is4 dip = true -> 42 + N.of_nat (length data) < 65536 ->
+  bytes_ok smac -> bytes_ok dmac -> bytes_ok sip -> bytes_ok dip -> bytes_ok data ->
+  ttl < 256 -> sp < 65536 -> dp < 65536 -> N.land (nth 0 smac 0) 1 = 0 ->
+  let udpb := udp_hdr sp dp (8 + N.of_nat (length data)) ++ data in
+  let P := packet4_bytes ttl 17 sip dip udpb in
+  exists f,
+    ether_wrap4 b smac dmac (packet_udp4 ttl sip dip sp dp data) = Ok f /\
+    len f = Nat.max 60 (42 + length data) /\ cap f = cap b /\
+    view f = ether_hdr dmac smac ETH_P_IP ++ pad46 P /\
+    parse_class f = Ok (class_of_ports sp dp, false) /\
+    (* reference decoders: the Ethernet payload is the packet plus zero padding; the IPv4
+       decoder stops at TotalLen; UDP length = 8 + |data| *)
+    ref_ether (view f) = Some {| re_dst := dmac; re_src := smac; re_type := ETH_P_IP; re_payload := pad46 P |} /\
+    ref_ip4 (pad46 P) = Some (ip4_expected_ref ttl 17 sip dip udpb) /\
+    ref_udp udpb = Some (udp_expected_ref sp dp data) /\
+    (* library views, each obtained from the outer one by its Payload() getter *)
+    (ipv <- ether_payload f ;; Ok (len ipv))%res = Ok (Nat.max 46 (28 + length data)) /\
+    (ipv <- ether_payload f ;; ip4_decode_lib ipv)%res = Ok (ip4_expected_view ttl 17 sip dip udpb) /\
+    (ipv <- ether_payload f ;; u <- ip4_payload ipv ;; Ok (len u))%res = Ok (8 + length data)%nat /\
+    (ipv <- ether_payload f ;; u <- ip4_payload ipv ;; udp_decode_lib u)%res = Ok (udp_expected_view sp dp data).
+Proof. exact pad4u_rt. Qed.
+Print Assumptions C03_padded_frame_rt.
+
+(* IPv6 SetPayload (payload in place after the header) *)
+Theorem C03_ip6_set_payload_rt : forall p hop src dst b nh,
+
+  (40 + length b <= cap p)%nat -> bytes_ok src -> bytes_ok dst -> bytes_ok b ->
+  nh < 256 -> hop < 256 -> 40 + N.of_nat (length b) < 65536 ->
+  firstn (length b) (skipn 40 (arr p)) = b ->
+  exists ip r,
+    encode_ip6 p hop src dst = Ok (ip, false) /\ len ip = 40%nat /\
+    ip6_set_payload ip (length b) nh = Ok r /\
+    len r = (40 + length b)%nat /\ cap r = cap p /\ skipn 40 (arr r) = skipn 40 (arr p) /\
+    bytes_ok (view r) /\
+    ip6_decode_lib r = Ok (ip6_expected_view nh hop (as16 src) (as16 dst) b) /\
+    ref_ip6 (view r) = Some (ip6_expected_ref nh hop (as16 src) (as16 dst) b).
+Proof. exact ip6_set_payload_rt. Qed.
+Print Assumptions C03_ip6_set_payload_rt.
+
+(* the composed Ether/IPv6/UDP frame (handlers/dns_naming/mdns.go): as C03_compose_classified *)
+Theorem C03_compose6_classified : forall b smac dmac hop sip dip sp dp data,
+
+  (62 + length data <= cap b)%nat -> length smac = 6%nat -> length dmac = 6%nat ->
+  62 + N.of_nat (length data) < 65536 ->
+  bytes_ok smac -> bytes_ok dmac -> bytes_ok sip -> bytes_ok dip -> bytes_ok data ->
+  hop < 256 -> sp < 65536 -> dp < 65536 -> N.land (nth 0 smac 0) 1 = 0 ->
+  let udpb := udp_hdr sp dp (8 + N.of_nat (length data)) ++ data in
+  exists f,
+    compose_udp6 b smac dmac hop sip dip sp dp data = Ok f /\
+    len f = (62 + length data)%nat /\ cap f = cap b /\
+    skipn (62 + length data) (arr f) = skipn (62 + length data) (arr b) /\
+    view f = frame6_bytes smac dmac hop (as16 sip) (as16 dip) sp dp data /\
+    parse_class f = Ok (class_of_ports sp dp, false) /\
+    (exists ipb,
+       ref_ether (view f) = Some {| re_dst := dmac; re_src := smac; re_type := ETH_P_IPV6; re_payload := ipb |} /\
+       length ipb = (40 + length udpb)%nat /\
+       ref_ip6 ipb = Some (ip6_expected_ref 17 hop (as16 sip) (as16 dip) udpb) /\
+       ref_udp udpb = Some (udp_expected_ref sp dp data)) /\
+    (ipv <- ether_payload f ;; ip6_decode_lib ipv)%res = Ok (ip6_expected_view 17 hop (as16 sip) (as16 dip) udpb) /\
+    (ipv <- ether_payload f ;; u <- ip6_payload ipv ;; udp_decode_lib u)%res = Ok (udp_expected_view sp dp data).
+Proof. exact compose_udp6_rt. Qed.
+Print Assumptions C03_compose6_classified.
+
+(* DHCPv4 fixed fields: the RFC 2131 reference decoder's record of the encoded message and the
+   library getters, for the same domain as C03_dhcp4_rt.  xid / chaddr = nil and a non-IPv4
+   ciaddr / yiaddr keep the bytes the buffer held (dhcp_x4 / dhcp_ch6 / dhcp_c4). *)
+Theorem C03_dhcp4_fixed_rt : forall b opcode mt chaddr ci yi xid bc options order perm,
+
+  (300 <= cap b)%nat ->
+  match chaddr with Some m => length m = 6%nat | None => True end ->
+  match xid with Some x => length x = 4%nat | None => True end ->
+  let o' := set_opt 53 [mt] options in
+  nodup options -> opts_ok o' -> (241 + osize o' <= cap b)%nat ->
+  let em := emission o' order perm in
+  let old := arr b in
+  exists p,
+    encode_dhcp4 b opcode mt chaddr ci yi xid bc options order perm = Ok p /\
+    ref_dhcp (view p) =
+      Some {| rd_op := opcode; rd_htype := 1; rd_hlen := 6; rd_hops := 0; rd_xid := dhcp_x4 old xid; rd_secs := 0;
+              rd_flags := if bc then 32768 else 0;
+              rd_ciaddr := dhcp_c4 old ci 12; rd_yiaddr := dhcp_c4 old yi 16;
+              rd_siaddr := [0;0;0;0]; rd_giaddr := [0;0;0;0];
+              rd_chaddr := dhcp_ch6 old chaddr ++ repeat 0 10; rd_sname := repeat 0 64; rd_file := repeat 0 128;
+              rd_options := em; rd_pad := repeat 0 (300 - (241 + osize em)) |} /\
+    dhcp_opcode p = Ok opcode /\ dhcp_htype p = Ok 1 /\ dhcp_hlen p = Ok 6 /\ dhcp_hops p = Ok 0 /\
+    dhcp_xid p = Ok (dhcp_x4 old xid) /\ dhcp_secs p = Ok 0 /\ dhcp_flags p = Ok (if bc then 32768 else 0) /\
+    dhcp_ciaddr p = Ok (dhcp_c4 old ci 12) /\ dhcp_yiaddr p = Ok (dhcp_c4 old yi 16) /\
+    dhcp_siaddr p = Ok [0;0;0;0] /\ dhcp_giaddr p = Ok [0;0;0;0] /\
+    dhcp_chaddr p = Ok (dhcp_ch6 old chaddr) /\ dhcp_cookie p = Ok COOKIE.
+Proof. exact dhcp4_fixed_rt. Qed.
+Print Assumptions C03_dhcp4_fixed_rt.
